@@ -8,7 +8,7 @@ from harness import core, py2lean, instantiate
 from harness.core import Outcome, f2b, b2f
 
 ID = "C06"
-LEAN_TARGETS = ["BeyondVerif.Props.C06"]
+LEAN_TARGETS = ["BeyondVerif.Props.C06", "BeyondVerif.Props.C06Iter"]
 THEOREMS = [
     "BeyondVerif.C06.trees_orders_gammas",
     "BeyondVerif.C06.euler_order1",
@@ -37,6 +37,24 @@ THEOREMS = [
     "BeyondVerif.C06.step_scale_law",
     "BeyondVerif.C06.step_scale_shrinks",
     "BeyondVerif.C06.step_scale_shrinks_backward",
+    "BeyondVerif.C06.runOps_get",
+    "BeyondVerif.C06.reuse_eq_fresh",
+    "BeyondVerif.C06.result_depends_on_current_values_only",
+    "BeyondVerif.C06.current_method_selects_step",
+    "BeyondVerif.C06.current_method_selects_fixed_step",
+    "BeyondVerif.C06.current_tol_bounds_accepted_step",
+    "BeyondVerif.C06.copy_keeps_settings",
+    "BeyondVerif.C06.butcher_names",
+    "BeyondVerif.C06.copy_then_call",
+    "BeyondVerif.C06.marchWith_exit",
+    "BeyondVerif.C06.marchWith_consumes",
+    "BeyondVerif.C06.marchWith_incr",
+    "BeyondVerif.C06.interpFlag_spec",
+    "BeyondVerif.C06.march_reaches_stop_and_pads",
+    "BeyondVerif.C06.pad_length",
+    "BeyondVerif.C06.position_full_order",
+    "BeyondVerif.C06.iter_interpolates_at_full_order",
+    "BeyondVerif.C06.outputs_inside_tabulation",
 ]
 LEVEL_TEXT = ("Lean theorems over R about the four Butcher tableaux, the per-body attraction, the step-size update and MAX_ITER translated from "
               "keplernum.py on every run: all rooted-tree order conditions (Euler 1; RK4 all 8 up to order 4; RKF54 and DOPRI54 all 17 up to order 5 for "
@@ -1651,11 +1669,50 @@ def oracle(ctx, widened):
     return out
 
 
+def replay_history(out, i):
+    """a recorded history on one real object: at every call, the re-used object against a fresh one with the same attribute values"""
+    from beyond.dates import timedelta
+    from beyond.propagators.keplernum import KeplerNum
+    mk = lambda b: _FixedBody("b", b[0], b[1:4])
+    init = i["initial"]
+    prop = KeplerNum(timedelta(seconds=init["step"]), [mk(b) for b in init["bodies"]], method=init["method"], tol=init["tol"])
+    for k, op in enumerate(i["ops"]):
+        kind = op["op"]
+        if kind in ("mk", "rb"):
+            real = _real_call(prop, op)
+            fr = KeplerNum(prop.step, list(prop.bodies), tol=prop.tol)
+            fr.method = prop.method
+            fresh = _real_call(fr, op)
+            stale = (fresh != real) if (isinstance(fresh, str) or isinstance(real, str)) else any(
+                not core.close(a, b, rtol=1e-12, atol=1e-9) for a, b in zip(fresh, real))
+            if stale:
+                out.fail("reuse-history", f"a re-used KeplerNum object does not return what a fresh object with the same attribute values returns at operation {k}",
+                         i, observed=real if isinstance(real, str) else real[:7], expected=fresh if isinstance(fresh, str) else fresh[:7])
+                break
+        elif kind == "sm":
+            prop.method = op["m"]
+        elif kind == "ss":
+            prop.step = timedelta(seconds=op["h"])
+        elif kind == "st":
+            prop.tol = op["t"]
+        elif kind == "sb":
+            prop.bodies = [mk(b) for b in op["bodies"]]
+        elif kind == "ab":
+            prop.bodies.append(mk(op["body"]))
+        elif kind == "db":
+            prop.bodies.pop()
+        elif kind == "cp":
+            prop = prop.copy()
+    return out
+
+
 def replay(f):
     """re-run the oracle family on the recorded input"""
     out = Outcome()
     mu = float(earth().µ)
     i = f["input"]
+    if f["family"].startswith("reuse-history"):
+        return replay_history(out, i)
     e, rp = i["e"], i["rp"]
     o = {"x0": i["x0"], "e": e, "rp": rp, "a": rp / (1 - e), "period": 2 * math.pi * math.sqrt((rp / (1 - e)) ** 3 / mu),
          "n_p": math.sqrt(mu * (1 + e) / rp ** 3)}
